@@ -71,6 +71,8 @@ _sort_cache = {}
 
 def tyname(ty):
     k = ty[0]
+    if k == 'raw':
+        return 'raw_' + str(ty[1]).replace(' ', '').replace('(', '_').replace(')', '_').replace(',', '_')
     if k in ('int', 'bool', 'real', 'none', 'bytes', 'str', 'any', 'callable', 'bits'):
         return k
     if k == 'bkey':
@@ -92,6 +94,8 @@ def tyname(ty):
 
 def sort_of(ty):
     k = ty[0]
+    if k == 'raw':
+        return ty[1]
     if k in ('int', 'enum', 'ref', 'dict', 'list', 'callable', 'bkey'):
         return I
     if k == 'bool':
@@ -480,6 +484,10 @@ def to_term(v):
 
 def from_term(ty, t):
     k = ty[0]
+    if k == 'raw':
+        r = VRaw(t)
+        r.ty = ty
+        return r
     if k == 'int':
         return VInt(t)
     if k == 'enum':
@@ -528,6 +536,8 @@ def from_term(ty, t):
 def coerce(v, ty):
     """Bring value v to declared type ty (e.g. wrap into option)."""
     if v.ty == ty:
+        return v
+    if ty[0] == 'raw' and isinstance(v, VRaw):
         return v
     if v.ty[0] == 'tuple' and ty[0] == 'tuple' and v.ty[1] == ty[1]:
         return v
